@@ -168,7 +168,8 @@ def run(rep: vk.Report):
         # a short history on the same Problem: every solve's report is checked, not only the first
         steps = ["solve"]
         for _ in range(r.randint(0, 2)):
-            steps.append(r.choice(["flip_same_object", "flip_same_object", "resolve", "new_objective_same_sense", "add_constraint"]))
+            steps.append(r.choice(["flip_same_object", "flip_same_object", "resolve", "new_objective_same_sense", "add_constraint",
+                                   "rejected_opposite_setter", "rejected_opposite_setter"]))
         cur_mx = mx
         for step in steps:
             if step == "flip_same_object":
@@ -179,6 +180,12 @@ def run(rep: vk.Report):
                 (P.maximize if cur_mx else P.minimize)(nobj)
             elif step == "add_constraint":
                 P.subject_to(x[0] <= 2.5)
+            elif step == "rejected_opposite_setter":
+                # a call that is REJECTED (not an expression) must change nothing - in particular not the orientation
+                try:
+                    (P.minimize if cur_mx else P.maximize)(r.choice(["x + 2*y", None, 3.5, [1, 2]]))
+                except Exception:
+                    pass
             with warnings.catch_warnings():
                 warnings.simplefilter("ignore")
                 try:
